@@ -120,6 +120,11 @@ def cxSqrt (z : Cx Rat) : R (Cx Rat) := do
 /-- `real_coherency` guard with `numeric_limits<Rat>::epsilon() = 0` -/
 def imagGuardRat (ni nr : Rat) : Bool := ni > 0 && ni * 100000 > nr
 
+/-- order leaves at the exact scalar: `numeric_limits<Rat>::epsilon()` is 0 in the harness -/
+def ordRat : Quat.OrdLeaves Rat := ⟨fun x => x < 0, fun a b => a ≤ b, 0⟩
+/-- order leaves at `double`: ε = 2⁻⁵² -/
+def ordFloat : Quat.OrdLeaves Float := ⟨fun x => x < 0, fun a b => a ≤ b, Float.ofBits 0x3cb0000000000000⟩
+
 def outLine (x : Except Err (List Rat)) : String :=
   match x with
   | .ok l => l.foldl (fun s r => s ++ " " ++ ratStr r) "ok"
